@@ -79,6 +79,12 @@ func checkProbe(r *rux.Router, tb *model.Table, method, path string) string {
 				method, path, res.Norm, rep, got, res.Route, res.Kind, res.NMatch, tb)
 		}
 	}
+	// Match takes the method name in any case (it upper-cases it, as the registration side does)
+	for _, m := range []string{strings.ToLower(method), method[:1] + strings.ToLower(method[1:])} {
+		if rt, _, _ := r.Match(m, path); model.RouteIndex(rt) != res.Route {
+			return fmt.Sprintf("Match(%s,%q): got route %d, Match(%s,...) gave %d\n table: %s", m, path, model.RouteIndex(rt), method, res.Route, tb)
+		}
+	}
 	code, body := serve(r, method, path)
 	want := "404"
 	if res.Route >= 0 {
@@ -108,6 +114,9 @@ func prop(t *rapid.T) {
 	tb.Routes = model.GenRoutes(t, cfg, tb.Opts.Strict)
 	if len(tb.Routes) == 0 {
 		t.Skip("empty table")
+	}
+	if model.LongPrefix(t, tb.Routes, 6) {
+		ev.Class("table:all-routes-below-a-long-first-segment")
 	}
 	if rapid.IntRange(0, 7).Draw(t, "interceptAll") == 0 {
 		// InterceptAll(p): every request is a request for p - p is a path like any other (trailing slash under
